@@ -263,7 +263,7 @@ impl Compound {
             *lhs *= Rational::new(10u32, 1u32).pow(state.prefix * state.power);
 
             if let Some(conversion) = name.conversion() {
-                apply_conversion(state.power, lhs, conversion)?;
+                apply_interval(state.power, lhs, conversion);
             }
         }
 
@@ -271,7 +271,7 @@ impl Compound {
             *rhs *= Rational::new(10u32, 1u32).pow(state.prefix * state.power);
 
             if let Some(conversion) = name.conversion() {
-                apply_conversion(state.power, rhs, conversion)?;
+                apply_interval(state.power, rhs, conversion);
             }
         }
 
@@ -333,7 +333,7 @@ impl Compound {
                     // original factor modifier, which we apply to mod_power to
                     // get the original power back. Then we multiply by `-1`
                     // because we want to shed the multiples here.
-                    apply_conversion(-mod_power, out, conversion)?;
+                    apply_interval(-mod_power, out, conversion);
                 }
             }
 
@@ -532,6 +532,28 @@ impl fmt::Debug for Compound {
 impl fmt::Display for Compound {
     fn fmt(&self, f: &mut fmt::Formatter<'_>) -> fmt::Result {
         self.display(false).fmt(f)
+    }
+}
+
+/// Apply only the proportional part of a conversion. As a factor of a product
+/// or a quotient a degree is an interval, so the zero point of an offset scale
+/// must never be added to the value.
+fn apply_interval(pow: i32, ratio: &mut Rational, conversion: Conversion) {
+    match conversion {
+        Conversion::Factor(fraction) => {
+            if pow != 0 {
+                *ratio *= Rational::new(fraction.numer, fraction.denom).pow(pow);
+            }
+        }
+        Conversion::Offset(..) => {}
+        Conversion::Methods(methods) => {
+            let mut zero = Rational::new(0, 1);
+            let mut scale = Rational::new(1, 1);
+            (methods.to)(&mut zero);
+            (methods.to)(&mut scale);
+            scale -= zero;
+            *ratio *= scale.pow(pow);
+        }
     }
 }
 
